@@ -176,15 +176,7 @@ def worker(args):
                               "include_last": con.get("include_last", True)}
                     if Fr(con.get("scale", 1)) != 1:
                         kw["scale"] = float(Fr(con["scale"]))
-                    rels = con["rels"]
-                    form = con.get("form", "vec")
-                    if form == "between":
-                        expr = f(rels[0]["lhs"]) <= (f(rels[0]["rhs"]) <= f(rels[1]["rhs"]))
-                    elif form == "ge":
-                        expr = ca.vertcat(*[f(r["rhs"]) for r in rels]) >= ca.vertcat(*[f(r["lhs"]) for r in rels])
-                    else:
-                        L = ca.vertcat(*[f(r["lhs"]) for r in rels]); R = ca.vertcat(*[f(r["rhs"]) for r in rels])
-                        expr = (L == R) if rels[0]["rel"] == "eq" else (L <= R)
+                    expr = CS.constraint_expr(con, f)
                     ocp.subject_to(expr, **kw)
                 elif k == "clear_constraints":
                     ocp.clear_constraints()
